@@ -565,3 +565,40 @@ pub fn duplex_bulk(client_port: u16, hs: Hs, up: u32, down: u32, tag: u64) -> Re
     }
     res
 }
+
+/// The application completes the local handshake and then says nothing for `pause_ms` before its first byte (a client
+/// that waits for the user, a protocol in which the other side would speak first). The flow is open from the handshake
+/// on: the first bytes, whenever they come, reach the target, and the answer comes back.
+pub fn late_first_write(client_port: u16, hs: Hs, pause_ms: u32, tag: u64) -> Result<(), FlowFail> {
+    use std::io::{Read, Write};
+    let listener = Listener::bind();
+    let (mut app, pre) = net::app_connect(client_port, hs, listener.port, Duration::from_secs(15)).map_err(|e| soft("handshake", format!("local {} handshake failed: {}", hs.name(), e)))?;
+    std::thread::sleep(Duration::from_millis(pause_ms as u64));
+    let up = crate::gen::keystream(tag, 0, 1500);
+    if let Err(e) = app.write_all(&up) {
+        return Err(soft("first-write-after-a-pause-fails", format!("the application's first write, {} ms after the handshake, failed: {}", pause_ms, e)));
+    }
+    let Some(mut t) = listener.accept(wait()) else {
+        return Err(soft("no-dial-after-a-pause", format!("the application sent its first bytes {} ms after the handshake; the target was not dialled within {:?}", pause_ms, wait())));
+    };
+    t.set_read_timeout(Some(wait())).ok();
+    let mut got = vec![0u8; pre.len() + up.len()];
+    t.read_exact(&mut got).map_err(|e| soft("app-to-target-stall", format!("the target did not receive the first bytes sent {} ms after the handshake: {}", pause_ms, e)))?;
+    if got[pre.len()..] != up[..] || got[..pre.len()] != pre[..] {
+        return Err(hard("target-wrong-byte", "the target received different bytes than the application wrote".into()));
+    }
+    let down = crate::gen::keystream(tag + 1, 0, 4000);
+    t.write_all(&down).map_err(|e| soft("target-write", e.to_string()))?;
+    let _ = t.shutdown(Shutdown::Both);
+    app.set_read_timeout(Some(wait())).ok();
+    let mut back = vec![];
+    if let Err(e) = app.read_to_end(&mut back) {
+        if back.len() < down.len() {
+            return Err(soft("target-to-app-stall", format!("the application has {} of {} answer bytes: {}", back.len(), down.len(), e)));
+        }
+    }
+    if back != down {
+        return Err(hard("answer-truncated", format!("the application received {} bytes of a {}-byte answer", back.len(), down.len())));
+    }
+    Ok(())
+}
